@@ -252,6 +252,12 @@ def check_b(ck, repo):
             except SyntaxError:
                 v = None
             okc = isinstance(v, ast.ListComp) and _t(v.elt) == "clone(self.estimator)" and len(v.generators) == 1 and not v.generators[0].ifs and _t(v.generators[0].iter) in ("range(self.n_estimators)", "range(0, self.n_estimators)")
+        if not okc and E:
+            from .sem import elementwise
+
+            r_ = elementwise(repo, fit, ast.Name(id=E, ctx=ast.Load()), stmt_of(c))
+            if r_ is not None and len(r_[0]) == 1 and r_[0][0].replace(" ", "") in ("range(self.n_estimators)", "range(0,self.n_estimators)") and _t(r_[1]) == "clone(self.estimator)":
+                okc = True
         ck.verdict(okc, "C17.b", fit, ds[0][0] if ds else "estimators = [...]", "n_estimators clones of the base regressor", "the list of models is not one fresh clone per range(self.n_estimators)")
         st = stmt_of(c)
         w = want(repo, f"range(len({E}))", fit, st) if E else None
@@ -322,7 +328,12 @@ def check_b(ck, repo):
         FLOAT64 = ("float", "numpy.float64", "'float64'", "numpy.double", "'float'", "'f8'", "'d'", "numpy.float_", "None")
         lossy = [d for d in dt if src_of(d).replace('"', "'") not in FLOAT64]
         ck.verdict(not lossy, "C17.b", pa, f"buffer dtype {[src_of(d) for d in dt] or 'float64 (default)'}", "the matrix stores each model's prediction unchanged", f"the matrix of individual predictions is allocated with dtype={src_of(lossy[0]) if lossy else ''}: predictions are cast (rounded or truncated) when stored, so predict_all/predict_sorted no longer hold the individual predictions and predict is not their mean")
-    if not oka and not form:
+    from .sem import opaque_helpers_in
+
+    gen_helpers = opaque_helpers_in(repo, pa, [src_of(l_.iter) for l_ in loops]) or [c_.func.attr for l_ in loops for c_ in ast.walk(l_.iter) if isinstance(c_, ast.Call) and isinstance(c_.func, ast.Attribute) and src_of(c_.func.value) == "self" and c_.func.attr in ci.methods and c_.func.attr not in ("predict_all", "predict", "predict_sorted", "fit")]
+    if not oka and gen_helpers:
+        ck.unknown("C17.b", pa, "container[:, i] = estimators_[i].predict(X) for every i", f"the predictions are produced by {gen_helpers[0]}(), a generator this rule does not look into: which estimator fills which column is not decided")
+    elif not oka and not form:
         ck.unknown("C17.b", pa, "container[:, i] = estimators_[i].predict(X) for every i", "predict_all does not fill the returned matrix column by column in a loop over the estimators in one of the spellings this rule reads (another buffer layout or counter is not followed)")
     else:
         ck.verdict(oka, "C17.b", pa, "container[:, i] = estimators_[i].predict(X) for every i", "column i of the matrix is estimator i's prediction for every row", "predict_all is not [one column per estimator, column i = estimators_[i].predict(X)]")
